@@ -131,11 +131,16 @@ impl Env {
 }
 
 pub fn weight_of(trace: &[Choice]) -> Ratio {
+    try_weight_of(trace).expect("weight overflow")
+}
+
+/// None when the denominator does not fit (a very long leaf: its weight is below 2^-128)
+pub fn try_weight_of(trace: &[Choice]) -> Option<Ratio> {
     let mut den: u128 = 1;
     for c in trace {
-        den = den.checked_mul(c.width as u128).expect("weight overflow");
+        den = den.checked_mul(c.width as u128)?;
     }
-    Ratio::new(1, den)
+    Some(Ratio::new(1, den))
 }
 
 #[derive(Clone, Debug, Default)]
@@ -190,7 +195,15 @@ pub fn explore<O>(
                 prefix.len()
             ));
         }
-        let w = env.weight();
+        // a leaf too long for its weight to be represented makes the exploration a capped one (laws are
+        // then not concluded); it is still visited
+        let w = match try_weight_of(&env.trace) {
+            Some(w) => w,
+            None => {
+                stats.capped = true;
+                Ratio::ZERO
+            }
+        };
         total = total.add(w);
         if env.beyond_horizon {
             stats.beyond_horizon += 1;
@@ -217,6 +230,7 @@ pub fn explore<O>(
         prefix = t;
     }
     stats.total_weight_is_one = !stats.capped && total == Ratio::ONE;
+    let _ = &weight_of;
     stats
 }
 
